@@ -47,7 +47,7 @@ func init() {
 		modes: func(tier string, seed int64) []modeSpec {
 			a, b, e := 16000, 16000, 16
 			if tier == "thorough" {
-				a, b, e = 600000, 600000, 240
+				a, b, e = 1500000, 1500000, 320
 			}
 			return []modeSpec{
 				{name: "struct", n: a, perChild: a / 16, timeout: 20 * time.Minute},
